@@ -1,7 +1,7 @@
 #!/usr/bin/env python3
 """Authoring helper: every selftest/benign/*.diff (behaviour-preserving refactorings written by independent sub-agents,
 each confirmed by them to keep the 2300 tests green) applied to a scratch copy of /repo's sources; all 20 quick checks
-must stay silent. usage: try_benign.py [--lanes N] [name-prefix ...]; results -> selftest/benign/last_run.json"""
+must stay silent. usage: try_benign.py [--lanes N] [name-prefix | %substring ...]; results -> selftest/benign/last_run.json"""
 import concurrent.futures, glob, json, os, re, shutil, subprocess, sys, tempfile
 VERIF, REPO = "/verif", "/repo"
 PROPS = ["C%02d" % i for i in range(1, 21)]
@@ -43,7 +43,8 @@ def main():
         args = [a for a in args if a != str(lanes)]
     patches = sorted(glob.glob(os.path.join(VERIF, "selftest", "benign", "*.diff")))
     if args:
-        patches = [p for p in patches if any(os.path.basename(p).startswith(a) for a in args)]
+        patches = [p for p in patches if any(os.path.basename(p).startswith(a) or (a.startswith("%") and a[1:] in os.path.basename(p))
+                                             for a in args)]
     base = tempfile.mkdtemp(prefix="axbenign-")
     res = {}
     try:
